@@ -100,10 +100,42 @@ fn compress_ops(item: &str, data: &[u8], pattern: &[usize]) {
             let (n, ck) = normalized(&out);
             Ok(format!("raw={:016x} norm={:016x} checksum={} len={}", fnv(&out), n, ck, out.len()))
         })));
+        // (a') a REUSED compressor: a first frame (text-like warm-up with a Huffman table, or the item
+        // itself) and then the item; the second frame is reported. Per-frame state must be reset the
+        // same way in every build
+        for (name, warm) in [("text", warm_text()), ("itself", data.to_vec())] {
+            report(item, &format!("compress{l}:reused(after_{name})"), catch_unwind(AssertUnwindSafe(|| {
+                let mut c = FrameCompressor::new(level(l));
+                c.set_source(Frag { data: &warm, pos: 0, pattern: &[], calls: 0 });
+                c.set_drain(Vec::new());
+                c.compress();
+                let first = c.take_drain().unwrap();
+                c.set_source(Frag { data, pos: 0, pattern, calls: 0 });
+                c.set_drain(Vec::new());
+                c.compress();
+                let out = c.take_drain().unwrap();
+                let (n, ck) = normalized(&out);
+                Ok(format!("raw={:016x} norm={:016x} checksum={} len={} first_len={}", fnv(&out), n, ck, out.len(), first.len() - if ck { 4 } else { 0 }))
+            })));
+        }
         // (c) &mut [u8] sink that is large enough, and one that fills up (write_all must fail -> the
         // compressor's unwrap panics in every build alike)
-        for (name, cap) in [("slice_fits", data.len() + data.len() / 100 + 64), ("slice_full", data.len() / 2)] {
+        for name in ["slice_fits", "slice_full"] {
             report(item, &format!("compress{l}:frag->{name}"), catch_unwind(AssertUnwindSafe(|| {
+                // the sink that fills up holds half of the frame *without* its checksum, so that it is
+                // too small in every build alike (a size derived from the input length can fit the
+                // no-hash frame of compressible data and not the four bytes longer hash frame)
+                let cap = if name == "slice_fits" {
+                    data.len() + data.len() / 100 + 64
+                } else {
+                    let mut c = FrameCompressor::new(level(l));
+                    c.set_source(data);
+                    c.set_drain(Vec::new());
+                    c.compress();
+                    let full = c.take_drain().unwrap();
+                    let with_checksum = full.len() > 4 && full[4] & 4 != 0;
+                    (full.len() - if with_checksum { 4 } else { 0 }) / 2
+                };
                 let mut buf = vec![0xEEu8; cap];
                 let left;
                 {
@@ -121,7 +153,47 @@ fn compress_ops(item: &str, data: &[u8], pattern: &[usize]) {
     }
 }
 
+/// 6000 bytes of text-like data: enough literals with a skewed distribution for a Huffman table
+fn warm_text() -> Vec<u8> {
+    let words: [&[u8]; 8] = [b"the ", b"quick ", b"brown ", b"fox ", b"jumps ", b"over ", b"lazy ", b"dogs. "];
+    let mut out = Vec::with_capacity(6100);
+    let mut x = 0x2545F4914F6CDD1Du64;
+    while out.len() < 6000 {
+        x ^= x << 13;
+        x ^= x >> 7;
+        x ^= x << 17;
+        out.extend_from_slice(words[(x % 8) as usize]);
+        out.push(b'a' + (x >> 8) as u8 % 26);
+    }
+    out.truncate(6000);
+    out
+}
+
+/// single segment, checksummed frame with one raw block "warm-up!" (checksum bytes precomputed:
+/// XXH64("warm-up!") & 0xFFFFFFFF is only needed by builds that verify nothing, so any value works
+/// for the decoder - it never compares; the stored value is reported by accessor only)
+const WARM_FRAME: [u8; 21] = [0x28, 0xB5, 0x2F, 0xFD, 0x24, 8, 0x41, 0, 0, b'w', b'a', b'r', b'm', b'-', b'u', b'p', b'!', 1, 2, 3, 4];
+
 fn decode_ops(item: &str, frame: &[u8], pattern: &[usize], expect_len: usize) {
+    // a REUSED decoder: a complete checksummed frame (or the item itself) first, then the item
+    for name in ["warm_frame", "itself"] {
+        report(item, &format!("decode:reused(after_{name})"), catch_unwind(AssertUnwindSafe(|| {
+            let mut dec = FrameDecoder::new();
+            let mut out = vec![0u8; expect_len + 16];
+            let first: &[u8] = if name == "itself" { frame } else { &WARM_FRAME };
+            let _ = dec.decode_all(first, &mut out);
+            let mut src = Frag { data: frame, pos: 0, pattern, calls: 0 };
+            dec.reset(&mut src).map_err(|e| class(&format!("{e:?}")))?;
+            let mut got = vec![];
+            while !dec.is_finished() {
+                dec.decode_blocks(&mut src, BlockDecodingStrategy::UptoBlocks(2)).map_err(|e| class(&format!("{e:?}")))?;
+                if let Some(v) = dec.collect() {
+                    got.extend_from_slice(&v);
+                }
+            }
+            Ok(format!("data={:016x} len={} consumed={}", fnv(&got), got.len(), dec.bytes_read_from_source()))
+        })));
+    }
     report(item, "decode_all", catch_unwind(AssertUnwindSafe(|| {
         let mut dec = FrameDecoder::new();
         let mut out = vec![0u8; expect_len + 16];
